@@ -85,7 +85,7 @@ def shards(tier):
 
 def floors(tier):
     f = {"cases": 8000, "validator_for_checked": 8000, "validate_checked": 8000, "explicit_cls_checked": 2000, "cli_checked": 100, "cli_explicit_validator_checked": 50, "cli_several_instances_checked": 40,
-         "warnings_checked": 1000, "histories_with_registrations": 30, "registrations": 80, "distinguished_pairs": 6,
+         "warnings_checked": 1000, "histories_with_registrations": 30, "registrations": 80, "registrations_under_odd_version_names": 40, "distinguished_pairs": 6,
          "model_confirms_disagreement": 6, "missing_dollar_schema_in_dict_subclass": 500}
     for s in ("exact#", "exact", "unknown-uri", "non-uri", "missing", "boolean-schema"):
         f["spelling:" + s] = 200
@@ -388,6 +388,11 @@ def run_history(rec, ops, seed, scratch):
             warnings.simplefilter("ignore")
             # a later registration may reuse a version NAME that is already taken: it is still selectable by its own id
             vname = "vf-%d-%d" % (seed, n) if not op.get("reuse_name") else "vf-%d-shared" % seed
+            # the version is any identifier the caller likes: also an empty or blank one, or one that reads like a falsy value
+            odd = op.get("odd_name")
+            if odd is not None:
+                vname = odd
+                rec.count("registrations_under_odd_version_names")
             if op["how"] == "create_version":
                 C = validators.create(meta_schema=meta, validators=base.VALIDATORS, version=vname,
                                       type_checker=base.TYPE_CHECKER, id_of=base.ID_OF)
@@ -416,7 +421,7 @@ def run(ctx):
     rng = ctx.rng
     for i in range(ctx.scale(8, 200)):
         ops = [{"base": rng.choice(impl.DRAFTS), "how": rng.choice(["create_version", "validates"]), "hash": rng.random() < 0.5,
-                "reuse_name": rng.random() < 0.4}
+                "reuse_name": rng.random() < 0.4, "odd_name": rng.choice([None, None, "", " ", "0", "False", "none", "draft vf", "\u00fc", "7"])}
                for _ in range(rng.choice([0, 1, 2, 3, 5]))]
         hseed = rng.randrange(10 ** 6)
         st, res = fork_run(lambda: child(ctx.tier, ctx.seed, ctx.shard, ctx.nshards, ops, hseed))
